@@ -542,12 +542,14 @@ func sshSanitizeFilePath(sandboxDir, filePath string) (string, error) {
 	}
 	cleaned := filepath.Clean(filePath)
 
-	// Ensure the resolved path is within the sandbox directory
+	// Ensure the resolved path is within the sandbox directory. A plain prefix test is not enough:
+	// a relative sandbox that cleans to ".." components would let "../x" climb further up.
 	cleanedSandbox := filepath.Clean(sandboxDir)
 	if cleaned == cleanedSandbox {
 		return "", fmt.Errorf("path %q resolves to the sandbox directory itself %q", filePath, sandboxDir)
 	}
-	if !strings.HasPrefix(cleaned, cleanedSandbox+string(filepath.Separator)) {
+	rel, err := filepath.Rel(cleanedSandbox, cleaned)
+	if err != nil || rel == "." || !filepath.IsLocal(rel) {
 		return "", fmt.Errorf("path %q is outside the sandbox directory %q", filePath, sandboxDir)
 	}
 
